@@ -135,13 +135,12 @@ Proof. vm_compute. split; reflexivity. Qed.
 Example len2_parses : parse_model ex_cls ex2_numcanon (fun _ => false) true (lines_of len2_text) = PRDoc len2_doc [] [].
 Proof. vm_compute. reflexivity. Qed.
 
-(* LEXER-level remark (outside the parser half): a blank line BEFORE the grammar line makes the lexer read `OCTAVE::5.1.0` as an ordinary
-   assignment (IDENTIFIER ASSIGN ...), the envelope is then INFERRED: leading NEWLINE tokens followed by a GRAMMAR_SENTINEL token (dl_start > 0
-   with a grammar line) is a token shape the lexer never produces; the parser-half theorem covers it, the text-level composition cannot *)
-Example blank_line_before_grammar_line_changes_the_document :
-  match parse_model ex_cls ex2_numcanon (fun _ => false) true (lines_of (unl [[]; lit "OCTAVE::5.1.0"; lit "===DOC==="; lit "A::1"; lit "===END==="])),
+(* LEXER level: blank lines BEFORE the grammar line are layout (since /repo fix f2a06dd: the sentinel is tried at the start of the first
+   non-blank line, Lexer.init_state).  Before that fix the first text was read as ===INFERRED=== with OCTAVE::"5.1.0" as an assignment. *)
+Example blank_lines_before_grammar_line_are_layout :
+  match parse_model ex_cls ex2_numcanon (fun _ => false) true (lines_of (unl [[]; lit "  "; lit "OCTAVE::5.1.0"; lit "===DOC==="; lit "A::1"; lit "===END==="])),
         parse_model ex_cls ex2_numcanon (fun _ => false) true (lines_of (unl [lit "OCTAVE::5.1.0"; []; lit "===DOC==="; lit "A::1"; lit "===END==="])) with
-  | PRDoc d1 _ _, PRDoc d2 _ _ => dname d1 = lit "INFERRED" /\ dgrammar d1 = None /\ dname d2 = lit "DOC" /\ dgrammar d2 = Some (lit "5.1.0")
+  | PRDoc d1 _ _, PRDoc d2 _ _ => d1 = d2 /\ dname d2 = lit "DOC" /\ dgrammar d2 = Some (lit "5.1.0")
   | _, _ => False
   end.
 Proof. vm_compute. repeat split. Qed.
